@@ -52,6 +52,7 @@ class Gen:
         self.no_struct = 0
         self.fn_depth = 0
         self.budget = 0
+        self.no_shadow = set()
 
     # ---------------------------------------------------------------- helpers
     def fresh(self, p="v"):
@@ -482,7 +483,8 @@ class Gen:
 
     def declare_pattern(self, pat, ty):
         if isinstance(pat, PVar):
-            self.declare(pat.name, ty, False)
+            if pat.name != "_":
+                self.declare(pat.name, ty, False)
         elif isinstance(pat, PTup):
             for p, t in zip(pat.ps, ty.elems):
                 self.declare_pattern(p, t)
@@ -532,7 +534,7 @@ class Gen:
             pat = self.irrefutable_pattern(ty)
         else:
             # sometimes shadow an existing name
-            vs = self.vars_of(lambda t, m: True)
+            vs = [v for v in self.vars_of(lambda t, m: True) if v[0] not in self.no_shadow]
             name = self.pick(vs)[0] if vs and self.chance(0.2) else self.fresh()
             pat = PVar(name)
         st = Let(pat, e, annot=ty if self.chance(0.3) else None)
@@ -542,7 +544,7 @@ class Gen:
     def s_letmut(self, d):
         ty = self.rand_type(2)
         e = self.expr(ty, d)
-        vs = self.vars_of(lambda t, m: True)
+        vs = [v for v in self.vars_of(lambda t, m: True) if v[0] not in self.no_shadow]
         name = self.pick(vs)[0] if vs and self.chance(0.15) else self.fresh()
         st = LetMut(name, e, annot=ty if self.chance(0.3) else None)
         self.declare(name, ty, True)
